@@ -69,6 +69,22 @@ mod imp {
         state: Vec<TState>,
         seq: usize,
         cur_events: Vec<Vec<String>>, // per thread: events of the call in progress
+        /// set when a case has used up its budget of grants (a call that spins on another thread): from then on
+        /// the threads run without the scheduler
+        free_run: bool,
+    }
+
+    /// marks a thread Done even when its program panics (a panic in the library must not wedge the scheduler)
+    struct DoneGuard(Arc<Ctx>, usize);
+    impl Drop for DoneGuard {
+        fn drop(&mut self) {
+            let mut s = match self.0.m.lock() {
+                Ok(s) => s,
+                Err(p) => p.into_inner(),
+            };
+            s.state[self.1] = TState::Done;
+            self.0.cv.notify_all();
+        }
     }
 
     pub struct Ctx {
@@ -106,6 +122,9 @@ mod imp {
             match ev {
                 ShimEvent::Before(_) => {
                     let mut s = ctx.m.lock().unwrap();
+                    if s.free_run {
+                        return;
+                    }
                     s.state[tid] = TState::Waiting;
                     ctx.cv.notify_all();
                     while s.turn != Some(tid) {
@@ -128,6 +147,9 @@ mod imp {
                         ShimOp::CellGet => format!("{}:G", n),
                     };
                     s.cur_events[tid].push(tok);
+                    if s.free_run {
+                        return;
+                    }
                     // post-operation pause: the plain code that follows the operation (e.g. the write
                     // through the cell pointer) runs only after a further grant, so another thread can be
                     // scheduled between an atomic operation and the code after it
@@ -174,7 +196,7 @@ mod imp {
         let global = mode == 2;
         let n = programs.len();
         let ctx = Arc::new(Ctx {
-            m: Mutex::new(Sched { turn: None, state: vec![TState::Starting; n], seq: 0, cur_events: vec![vec![]; n] }),
+            m: Mutex::new(Sched { turn: None, state: vec![TState::Starting; n], seq: 0, cur_events: vec![vec![]; n], free_run: false }),
             cv: Condvar::new(),
         });
         *CTX.lock().unwrap() = Some(ctx.clone());
@@ -190,6 +212,7 @@ mod imp {
             let ptrs = ptrs.clone();
             handles.push(std::thread::spawn(move || {
                 TID.with(|c| c.set(Some(t)));
+                let _done = DoneGuard(ctx.clone(), t);
                 let mut calls: Vec<String> = Vec::new();
                 for c in prog.chars() {
                     let res = match c {
@@ -295,20 +318,51 @@ mod imp {
                 used.push(t);
             }
         }
-        // closing grants: finish every thread, lowest index first
-        loop {
+        // closing grants: finish every thread, lowest index first; a case that needs more than 600 grants has a
+        // call that spins on another thread: the scheduler lets go and the case is marked
+        let mut livelock = false;
+        'closing: loop {
             let mut progressed = false;
             for t in 0..n {
                 while grant(t) {
                     used.push(t);
                     progressed = true;
+                    if used.len() > 600 {
+                        livelock = true;
+                        break 'closing;
+                    }
                 }
             }
             if !progressed {
                 break;
             }
         }
-        let obs: Vec<String> = handles.into_iter().map(|h| h.join().unwrap_or_else(|_| "panic".to_string())).collect();
+        if livelock {
+            let mut s = ctx.m.lock().unwrap();
+            s.free_run = true;
+            s.turn = None;
+            for t in 0..n {
+                if s.state[t] == TState::Waiting {
+                    s.state[t] = TState::Running;
+                }
+            }
+            // wake everybody: waiting threads re-check `turn`; give each of them its turn in sequence
+            drop(s);
+            for _ in 0..(4 * n + 4) {
+                for t in 0..n {
+                    let mut s = ctx.m.lock().unwrap();
+                    s.turn = Some(t);
+                    ctx.cv.notify_all();
+                    drop(s);
+                    std::thread::sleep(std::time::Duration::from_millis(2));
+                }
+            }
+            used.truncate(40);
+        }
+        let mut obs: Vec<String> = handles.into_iter().map(|h| h.join().unwrap_or_else(|_| "panic".to_string())).collect();
+        if livelock {
+            obs.push("LIVELOCK".to_string());
+        }
         *CTX.lock().unwrap() = None;
         (used, obs.join("/"))
     }
